@@ -7,10 +7,13 @@ import contracts.common as K
 import contracts.potential, contracts.lammps_table, contracts.pair_tabulation, contracts.dlpoly_table, contracts.gulp
 import contracts.config_tabulation as CT
 import contracts.factories as FC
+import contracts.rawparser as RPc
 
 F = CT.FILE
 FUNCTIONS = [(F, '_TabulationCutoff._init_cutoff'), (FC.FILE, 'PairTabulationFactory.extract_cutoffs'), (FC.FILE, 'EAMTabulationFactory.extract_cutoffs'),
-             (FC.FILE, 'DLPOLY_PairTabulationFactory.extract_cutoffs'), (FC.FILE, 'LAMMPS_PairTabulationFactory.extract_cutoffs'), (contracts.pair_tabulation.FILE, 'LAMMPS_PairTabulation.write')]
+             (FC.FILE, 'DLPOLY_PairTabulationFactory.extract_cutoffs'), (FC.FILE, 'LAMMPS_PairTabulationFactory.extract_cutoffs'), (contracts.pair_tabulation.FILE, 'LAMMPS_PairTabulation.write'),
+             # 'the two that are given': a key [Tabulation] does not define is absent (a variable of the same name does not stand in for it), so the default applies
+             ('atsim/potentials/config/_config_parser.py', '_RawConfigParser.get'), ('atsim/potentials/config/_config_parser.py', '_RawConfigParser.has_option')]
 
 def lemmas():
     out = []
